@@ -38,6 +38,10 @@
 (*   F_REOPEN close() forgets the attempt it cancelled (a cancelled task   *)
 (*           finishes on a later loop turn only: an open_socket() right    *)
 (*           after close() would take it for an attempt in flight)         *)
+(*   F_SOLO  every drain call runs its own loop (FALSE: a call that finds   *)
+(*           a write in flight returns and leaves the queue to that loop - *)
+(*           not a defect of the pinned tree; a send() cancelled by its    *)
+(*           caller while its drain() is suspended then strands the queue) *)
 (*   F_CLOCK the drain reads the clock for every entry (FALSE: once before *)
 (*           the loop - not a defect of the pinned tree; kept to show that *)
 (*           the stall model exercises the expiry clause)                  *)
@@ -51,7 +55,7 @@
 EXTENDS Naturals, Integers, Sequences, FiniteSets, FiniteSetsExt, TLC, TLCExt
 
 CONSTANTS MaxConn, MaxTask, MaxMsg, MaxEnv, H, ConnSubs, MsgSubs, SubSends, QCap,
-          F_ENQ, F_DRAIN, F_ONE, F_CLOSE, F_CAP, F_CLOCK, F_WAITCLOSE, F_REOPEN, Stalls, Record, Kinds, Policies
+          F_ENQ, F_DRAIN, F_ONE, F_CLOSE, F_CAP, F_CLOCK, F_WAITCLOSE, F_REOPEN, F_SOLO, Stalls, Record, Kinds, Policies
 
 C == INSTANCE SocketContract WITH QMAX <- QCap
 
@@ -224,7 +228,7 @@ Seg(s, t) ==
             m   == s.nmsg + 1
             s2  == IF sub
                    THEN LET a  == [m |-> m, kind |-> "ok", retries |-> 0, life |-> 2]
-                            x  == Spawn(s1, "send", "S0", a, 0)
+                            x  == Spawn(s1, "subsend", "S0", a, 0)
                         IN [x EXCEPT !.nmsg = m, !.calls = @ + 1, !.task[NT(x)].cid = s.calls + 1]
                    ELSE s1
             o   == IF sub THEN <<Ev(s, [e |-> "callsend", t |-> 0, id |-> s.calls + 1, desc |-> m, retries |-> 0,
@@ -255,7 +259,7 @@ Seg(s, t) ==
   [] pc = "Sexc" -> {R(Done(s, t), <<RetSend(s, t, "error")>>)}
   \* ------------------------------------------------------------ _drain_message_queue
   [] pc = "R0" ->
-        IF ~s.isConn THEN {R(Cont(Ret(s, t), t), <<>>)}
+        IF ~s.isConn \/ (~F_SOLO /\ s.inflight > 0) THEN {R(Cont(Ret(s, t), t), <<>>)}
         ELSE {R(Cont(SetPc([s EXCEPT !.task[t].wake = s.now], t, "R0l"), t), <<>>)}
   [] pc = "R0l" ->
         IF s.queue = <<>> THEN {R(Cont(Ret(s, t), t), <<>>)} ELSE {R(Cont(SetPc(s, t, "R1"), t), <<>>)}
@@ -302,6 +306,8 @@ Seg(s, t) ==
             s1 == IF q.retries = 0 THEN s0
                   ELSE [s0 EXCEPT !.queue = <<[q EXCEPT !.retries = @ - 1]>> \o @]
         IN {R(Cont(Push(s1, t, "Rret", "X0"), t), <<>>)}
+  [] pc = "Rcan" ->        \* CancelledError at `await drain()`: only the `finally` of the loop runs, send() ends
+        {R(Done([s EXCEPT !.inflight = @ - 1], t), <<>>)}
   [] pc = "Rdrained" ->    \* drain() returned: the write is complete
         {R(Cont(SetPc([s EXCEPT !.inflight = @ - 1], t, "R0l"), t), <<>>)}
   [] pc = "Rret" -> {R(Cont(Ret(s, t), t), <<>>)}
@@ -509,6 +515,14 @@ Unstall ==
                                  !.ready = @ \o Handles(rw)],
                        <<Ev(S, [e |-> "unstall", t |-> 0, c |-> c - 1, ended |-> FALSE])>>, [op |-> "resume", c |-> c - 1])
 
+\* the application cancels one of its own send() calls while it is suspended in drain() on a stalled
+\* connection (asyncio.timeout / wait_for around the call): the frame is already in the send buffer
+CancelSend ==
+  \E t \in Tasks(S) :
+    /\ Stalls /\ S.task[t].kind = "send" /\ S.task[t].pc = "Rdrain"
+    /\ EnvStep([S EXCEPT !.task[t].pc = "Rcan", !.ready = Append(@, <<"t", t>>)],
+               <<Ev(S, [e |-> "cancelsend", t |-> 0, id |-> S.task[t].cid])>>, [op |-> "cancel", m |-> S.task[t].arg.q.m])
+
 \* a checkpoint of the contract: the loop has nothing left to do
 Checkpoint ==
   /\ Quiet(S) /\ S.nenv > 0
@@ -520,7 +534,7 @@ Env == \/ CallOpen \/ CallClose \/ CallReset \/ CallCloseOpen
        \/ \E dt \in Dts : Tick(dt)
        \/ TickToTimer
        \/ Feed(TRUE) \/ Feed(FALSE) \/ PeerReset \/ PeerEof \/ ArmFault
-       \/ Stall \/ ArmStall \/ Unstall
+       \/ Stall \/ ArmStall \/ Unstall \/ CancelSend
        \/ Checkpoint
 
 Next == StartIter \/ RunTask \/ Env
